@@ -181,6 +181,10 @@ func (o *Opts) Env(maxN int) *ordered.MapSA {
 func (o *Opts) Plugins() any {
 	r := o.R
 	src := func() string {
+		if o.Str != nil && r.Intn(4) == 0 {
+			// a source carrying whatever the string pool carries (references, tokens, odd characters)
+			return core.Pick(r, []string{"ecr#", "docker#v", "org/custom#", ""}) + o.Str(r)
+		}
 		return core.Pick(r, []string{"docker#v5.0.0", "docker-compose#v4", "org/custom#main", "./local", "github.com/o/r-buildkite-plugin#1", "ssh://git@h/o/r.git", "ecr", "a/b"})
 	}
 	cfg := func() any {
@@ -262,7 +266,7 @@ func (o *Opts) Matrix() any {
 	} else {
 		s := ordered.NewMap[string, any](2)
 		for i := 1 + r.Intn(3); i > 0; i-- {
-			d := core.Pick(r, []string{"os", "arch", "ver", "go.version", "a-b"})
+			d := core.Pick(r, []string{"os", "arch", "ver", "go.version", "a-b", "", "arch.", "go..minor", ".hidden"})
 			s.Set(d, o.strList(3))
 		}
 		s.Range(func(k string, _ any) error { dims = append(dims, k); return nil })
